@@ -274,17 +274,27 @@ pub const LITERAL_ALPHABET: &[&str] = &["'", "\"", "1", " ", "é", "\\", "a", "_
 /// side-effect placements around values and an operator
 pub const SIDE_EFFECT_ALPHABET: &[&str] = &["5", "[", "]", "+", " "];
 
-/// statement blocks: values, both separators and every bracket kind (two alphabets of 7 so that length 7 stays cheap)
+/// statement blocks: values, both separators and every bracket kind (three alphabets of 7 so that length 7 stays cheap)
 pub const BLOCK_ALPHABET_A: &[&str] = &["5", ";", "\n\n", "{", "}", "(", ")"];
 pub const BLOCK_ALPHABET_B: &[&str] = &["5", ";", "\n\n", "[", "]", "+", " "];
 
+/// lists written over several statements' worth of layout: comma, both separators, a plain group and a prefix operator
+pub const BLOCK_ALPHABET_C: &[&str] = &["5", ",", ";", "\n\n", "(", ")", "--"];
+
 pub fn block_string_count(max_len: u32) -> u64 {
-    alphabet_count(BLOCK_ALPHABET_A.len() as u64, max_len) + alphabet_count(BLOCK_ALPHABET_B.len() as u64, max_len)
+    alphabet_count(BLOCK_ALPHABET_A.len() as u64, max_len) + alphabet_count(BLOCK_ALPHABET_B.len() as u64, max_len) + alphabet_count(BLOCK_ALPHABET_C.len() as u64, max_len)
 }
 
 pub fn block_string(index: u64, max_len: u32) -> String {
     let a = alphabet_count(BLOCK_ALPHABET_A.len() as u64, max_len);
-    if index < a { alphabet_string(index, BLOCK_ALPHABET_A, max_len) } else { alphabet_string(index - a, BLOCK_ALPHABET_B, max_len) }
+    let b = alphabet_count(BLOCK_ALPHABET_B.len() as u64, max_len);
+    if index < a {
+        alphabet_string(index, BLOCK_ALPHABET_A, max_len)
+    } else if index < a + b {
+        alphabet_string(index - a, BLOCK_ALPHABET_B, max_len)
+    } else {
+        alphabet_string(index - a - b, BLOCK_ALPHABET_C, max_len)
+    }
 }
 
 /// "the same thing several times": homogeneous operator chains, conditional chains of 1..6 arms (with and without a
